@@ -20,7 +20,7 @@ from ..sym import Sym, lift as zl
 from .c10 import compare
 
 PROP = 'C11'
-CLASSES = ['simple_contract', 'contract_dicts', 'contract_dtindex', 'contract_nparrays', 'contract_aware_object_arrays', 'contract_aware_lists', 'storage', 'transport', 'ext_transport', 'multicommodity',
+CLASSES = ['simple_contract', 'contract_dicts', 'contract_dtindex', 'contract_nparrays', 'contract_aware_object_arrays', 'contract_aware_lists', 'contract_aware_dtindex_days_over_dst', 'contract_aware_dtindex_months', 'storage', 'transport', 'ext_transport', 'multicommodity',
            'chp', 'chp_minload', 'chp_no_heat', 'plant', 'orderbook', 'scaled', 'structured', 'linked']
 GRIDS = ['naive', 'cet']
 EXTRA_SHIMS = ['serialization.json = vf.jsonstub (tree walker; validated against the real json module on concrete objects every run)']
@@ -107,6 +107,17 @@ def mk_object(D, cls):
         return eao.assets.Contract(name='a', nodes=nA, price='p', min_cap=D('min', hi=0),
                                    max_cap={'start': arr([aw(0), aw(2)]), 'end': arr([aw(2), aw(9)]), 'values': vals},
                                    max_take={'start': arr([aw(1)]), 'end': arr([aw(3)]), 'values': [D('maxtake', lo=0)]})
+    if cls in ('contract_aware_dtindex_days_over_dst', 'contract_aware_dtindex_months'):
+        # zone-aware DatetimeIndex with a CALENDAR frequency: local midnights over the spring-forward day / month starts are not equidistant in UTC
+        if cls.endswith('dst'):
+            days = pd.date_range(pd.Timestamp(shapes.T0) - pd.Timedelta(days=1), periods=4, freq='D', tz='CET')
+            far = pd.date_range('2021-03-27', periods=4, freq='D', tz='CET')
+        else:
+            days = pd.date_range(pd.Timestamp(shapes.T0).replace(day=1), periods=4, freq='MS', tz='CET')
+            far = pd.date_range('2021-03-01', periods=4, freq='MS', tz='CET')
+        return eao.assets.Contract(name='a', nodes=nA, price='p', min_cap=D('min', hi=0), max_cap=D('max', lo=0),
+                                   max_take={'start': days[:-1], 'end': days[1:], 'values': [D('maxtake0', lo=0), D('maxtake1', lo=0), D('maxtake2', lo=0)]},
+                                   min_take={'start': far[:-1], 'end': far[1:], 'values': [D('mintake0', hi=0), D('mintake1', hi=0), D('mintake2', hi=0)]})
     if cls == 'storage':
         return shapes.mk_storage(D, 'a', [nA, nB], eff=0.75, wacc=D('wacc', lo=0), block_size='2h')
     if cls == 'transport':
